@@ -158,6 +158,44 @@ def template(node):
     return [("hole", ast.unparse(node), "?")]
 
 
+def _token_labels(ctx, c, cuts, ft, mt, src_):
+    """the label handed on by parse_column is the PROPERTY token's text minus exactly the property character (decided only when no other
+    finding of this obligation has changed the shape of these functions already)"""
+    def unknown(msg, node):
+        if not ctx.cur.findings:
+            raise Unsupported(msg, node)
+
+    mpc, fpc = ctx.prog.func("starfileio.Token.parse_column")
+    rets = [r_.value for r_ in ast.walk(fpc) if isinstance(r_, ast.Return) and r_.value is not None]
+    if len(rets) != 1:
+        return unknown("return of Token.parse_column not recognised", fpc)
+    rv = rets[0]
+    if isinstance(rv, ast.Name):  # returned through a temporary
+        d_ = [a_ for a_ in ast.walk(fpc) if isinstance(a_, ast.Assign) and any(isinstance(t_, ast.Name) and t_.id == rv.id for t_ in a_.targets)]
+        if len(d_) == 1:
+            rv = d_[0].value
+    k_strip = None
+    if isinstance(rv, ast.Attribute) and rv.attr == "value":
+        k_strip = 0
+    elif isinstance(rv, ast.Subscript) and isinstance(rv.value, ast.Attribute) and rv.value.attr == "value" and isinstance(rv.slice, ast.Slice) \
+            and rv.slice.upper is None and rv.slice.step is None and isinstance(rv.slice.lower, ast.Constant) and isinstance(rv.slice.lower.value, int):
+        k_strip = rv.slice.lower.value
+    if k_strip is None:
+        return unknown("label extraction in Token.parse_column not recognised", fpc)
+    for base_, lower_, n in cuts["PROPERTY"]:
+        first_var = sorted({s_[1] for s_ in cuts.get("LITERAL", [])})
+        if len(first_var) != 1:
+            break
+        off = 0 if lower_ == first_var[0] else 1 if lower_.replace(" ", "") == first_var[0] + "+1" else None
+        ctx.count(1)
+        if off is None:
+            return unknown(f"start of the PROPERTY token text ({lower_}) not recognised", n)
+        if off + k_strip != len(c["property"]):
+            ctx.finding("starfileio.Token.parse_column", fpc, f"a label written as {c['property']}name must come back as 'name': this copy of the tokenizer "
+                        f"drops {off} and parse_column {k_strip} leading character(s) (together {off + k_strip}, the property prefix has {len(c['property'])})",
+                        fpc, mpc)
+
+
 def o22(ctx):
     try:
         c, mt, ft = reader_constants(ctx.prog)
@@ -185,6 +223,26 @@ def o22(ctx):
             if _reorders(st.value):
                 ctx.finding("starfileio.Token.parse_columns", st, "the column labels are re-ordered after parsing: the k-th label of the header names the "
                             "k-th entry of every data row, whatever number its trailing comment carries", st, mp_)
+    # the tokenizer classifies a character sequence in two places (when a separator ends it, when the line ends it): both copies must cut the
+    # same token text, and the label handed on by parse_column must be that text minus exactly the property character
+    src_ = lambda n: " ".join(ast.unparse(n).split())
+    cuts = {}
+    for n in ast.walk(ft):
+        if isinstance(n, ast.Call) and src_(n.func).split(".")[-1] == "Token" and len(n.args) >= 2 and isinstance(n.args[0], ast.Attribute):
+            kind, val = n.args[0].attr, n.args[1]
+            if kind in ("PROPERTY", "LOOP", "LITERAL"):
+                if not (isinstance(val, ast.Subscript) and isinstance(val.slice, ast.Slice) and val.slice.step is None):
+                    raise Unsupported(f"text of a {kind} token is not a slice of the line", n)
+                cuts.setdefault(kind, []).append((src_(val.value), src_(val.slice.lower) if val.slice.lower is not None else "", n))
+    for kind, sites in cuts.items():
+        ctx.count(1, {"token kind": kind, "copies of the classification": len(sites), "token text starts at": sorted({s_[1] for s_ in sites})})
+        if len({(s_[0], s_[1]) for s_ in sites}) > 1:
+            ctx.finding("starfileio.Token.tokenize", sites[-1][2], f"the copies of the {kind} classification cut different token texts (start "
+                        f"{sorted({s_[1] for s_ in sites})}): a sequence that ends its line is tokenised differently from one followed by a blank or "
+                        "a comment (un-numbered labels, labels of STOPGAP blocks)", sites[-1][2], mt)
+    if len(cuts.get("PROPERTY", [])) < 2:
+        raise Unsupported("the two classification sites of the tokenizer not found", ft)
+    _token_labels(ctx, c, cuts, ft, mt, src_)
     # reader and writer open the file with the same text encoding
     mrd, frd = ctx.prog.func("starfileio.Starfile.read")
     opens = {}
@@ -269,9 +327,9 @@ def o22(ctx):
 
 # ---------------------------------------------------------------------------------------------- writer semantics
 FLOATS = [0.0, 10.0, 250.0, -30.0, 1000000.0, 1234567.891, 2407.986, 161.398243, -1e-06, 0.1, 1e-05, 3.141593, -0.5,
-          123456.789012, 99999.5, 1e-06, 7.0]
+          123456.789012, 99999.5, 1e-06, 7.0, -0.05, -0.004217, -10.0, -0.0]
 INTS = [0, 7, 10, 100, -20, 123456, 1234567, 100000000]
-TEXTS = ["abc", "TS_01/rec_001.mrc", "A", "B", "e10", "1_2", "nan_x"]
+TEXTS = ["abc", "TS_01/rec_001.mrc", "ts_04_defocus-0.04.mrc", "B", "A", "e10", "1_2", "nan_x"]
 
 
 def o23(ctx):
